@@ -636,14 +636,19 @@ class Send (BlockingOperation):
     if len(data) > bs: data = data[:bs]
     try:
       l = sock.send(data, socket.MSG_DONTWAIT)
-    except socket.error:
-      # Just try again?
+    except (BlockingIOError, InterruptedError):
+      # Just try again
       l = 0
+    except socket.error:
+      # Socket error
+      task.rv = None
+      return self._sent
 
     if l == 0:
       # Select and try again later
-      scheduler._selectHub.registerSelect(task, None, [self._fd], [self._fd],
-                                          timeout=self._timeout)
+      self._scheduler._selectHub.registerSelect(task, None, [self._fd],
+                                                [self._fd],
+                                                timeout=self._timeout)
       return ABORT
 
     self._sent += l
